@@ -115,7 +115,10 @@ def run_numpy_float(v: Variant, env):
     return [float(x) for x in np.atleast_1d(np.asarray(r, dtype=float)).reshape(-1)], None
 
 
-def casadi_function(v: Variant, symtype="SX"):
+def casadi_function(v: Variant, symtype="SX", sparse_zero=None):
+    """sparse_zero=(argument name, index): that entry of that vector argument is a STRUCTURAL zero of a sparse CasADi
+    vector (what DM(n,1)/sparsify give for a stopped or empty segment) instead of a symbol; the function's inputs stay
+    the full symbol vectors (the entry's input is simply unused)."""
     import casadi as cs
     from sym_metanet.engines.casadi import Engine
 
@@ -128,14 +131,21 @@ def casadi_function(v: Variant, symtype="SX"):
         else:
             s = XX.sym(a.name, 0 if a.n < 0 else max(a.n, 1), 1)
             syms.append((a, s))
-            call_args.append(s)
+            if sparse_zero and sparse_zero[0] == a.name:
+                z = XX(a.n, 1)
+                for k in range(a.n):
+                    if k != sparse_zero[1]:
+                        z[k] = s[k]
+                call_args.append(z)
+            else:
+                call_args.append(s)
     out = get_prim(eng, v.prim)(*call_args)
     F = cs.Function("P", [s for _, s in syms], [out], [a.name for a, _ in syms], ["out"], {"allow_duplicate_io_names": True})
     return F, [a for a, _ in syms]
 
 
-def run_casadi(v: Variant, symtype="SX"):
-    F, sargs = casadi_function(v, symtype)
+def run_casadi(v: Variant, symtype="SX", sparse_zero=None):
+    F, sargs = casadi_function(v, symtype, sparse_zero)
 
     def bind(i_in, name, k, n):
         a = sargs[i_in]
